@@ -363,26 +363,28 @@ def _adapters(kit, cfg, env, jsample, T, calls, metas):
     key = nat.seed(seed0)
     cur = None
     nsteps = min(T, 14)
-    plan = ["reset"] + ["step"] * nsteps + ["reset", "step", "step", "seed", "reset", "step", "reset-seed", "step", "step", "reset-seed-same", "step", "step"]
+    # seed 0 is deliberately among the re-seeds, AFTER the adapter's key has advanced (a falsy seed must still re-seed)
+    plan = (["reset"] + ["step"] * nsteps + ["reset", "step", "step", "seed", "reset", "step", "reset-seed", "step", "step",
+                                             "reset-seed-same", "step", "step", "reset-seed-zero", "step", "step", "seed-zero", "reset", "step"])
     last_obs = None
     ended = False
     for o in plan:
         if o == "step" and ended:           # like a gym user: after an episode end, reset before stepping again
             o = "reset"
-        if o == "seed":
-            n = int(rng.integers(0, 1000))
+        if o in ("seed", "seed-zero"):
+            n = 0 if o == "seed-zero" else int(rng.integers(0, 1000))
             g.seed(n)
             key = nat.seed(n)
             wire += [0, n]
             outs += [0]
             ops.append(("seed", n))
             continue
-        if o in ("reset", "reset-seed", "reset-seed-same"):
+        if o in ("reset", "reset-seed", "reset-seed-same", "reset-seed-zero"):
             if o == "reset":
                 obs, info = g.reset()
                 wire += [1]
             else:
-                n = 4242 if o == "reset-seed-same" else int(rng.integers(0, 1000))
+                n = 4242 if o == "reset-seed-same" else 0 if o == "reset-seed-zero" else int(rng.integers(0, 1000))
                 if o == "reset-seed-same":
                     pass
                 obs, info = g.reset(seed=n)
